@@ -36,7 +36,7 @@ KqDirEntry == NOTE_DELETE + NOTE_RENAME          \* a subdirectory entry of a wa
 (*   ent    : user dir path -> set of [n, kind] entries known to be there  *)
 (*   ws     : Ideal watcher state used for the expected events             *)
 (*   flags  : context for cause signatures (known deviations)              *)
-K0 == [on |-> FALSE, bagmode |-> FALSE, user |-> EmptyFn, ent |-> EmptyFn, ws |-> InitW(0), flags |-> {}, seq |-> 0, closed |-> FALSE, bad |-> <<>>, tags |-> {}]
+K0 == [on |-> FALSE, bagmode |-> FALSE, fresh |-> TRUE, failed |-> {}, pend |-> EmptyFn, opt |-> EmptyFn, evc |-> FALSE, errc |-> FALSE, user |-> EmptyFn, ent |-> EmptyFn, flags |-> {}, seq |-> 0, closed |-> FALSE, bad |-> <<>>, tags |-> {}]
 G0 == [id |-> "", start |-> 0, infra |-> <<>>, events |-> 0]
 
 Init == l = 1 /\ K = K0 /\ g = G0 /\ TLCSet(1, 1) /\ TLCSet(3, EmptyFn)
@@ -49,17 +49,20 @@ KBad(k, props, cause) == IF Len(k.bad) >= 12 THEN k
 KTag(k, t) == [k EXCEPT !.tags = @ \cup {t}]
 
 \* ---- expectations ----------------------------------------------------------
-Ent(name, op, min, s) == [seq |-> s, ino |-> "", name |-> name, op |-> op, from |-> <<>>, min |-> min, ovf |-> FALSE, self |-> FALSE, sup |-> FALSE, ck |-> 0]
-\* one event, ordered with respect to everything else
-Expect(k, name, op) ==
-  IF k.bagmode THEN [k EXCEPT !.seq = @ + 1, !.ws = [@ EXCEPT !.bag = Append(@, Ent(name, op, 1, k.seq + 1))]]
-  ELSE
-  [k EXCEPT !.seq = @ + 1,
-            !.ws = [@ EXCEPT !.exp = Append(@, Ent(name, op, 1, k.seq + 1)), !.mq = Append(@, Len(k.ws.exp) + 1)]]
-\* the events of one operation that may come in either order
+(* Expected events are kept per entry name, as the sequence of operations that happened to that name and   *)
+(* were not yet reported.  kqueue reports knote by knote: one event carries the union of the operations of  *)
+(* a vnode since its last retrieval (EV_CLEAR; Write dropped when Remove is present), and the order among    *)
+(* different entries is the order in which their knotes were first activated, not the order of the           *)
+(* operations.  What the properties fix is the sequence PER ENTRY: Create exactly once and first, then       *)
+(* Write / Chmod / Remove / Rename, and Remove followed by Create for a re-used name.  A received event       *)
+(* must therefore equal the union of a non-empty prefix of the pending operations of its name.               *)
+Push(f, name, op) == IF name \in DOMAIN f THEN [f EXCEPT ![name] = Append(@, op)] ELSE (name :> <<op>>) @@ f
+Expect(k, name, op) == [k EXCEPT !.seq = @ + 1, !.pend = Push(@, name, op)]
+\* several events of one operation: removals and renames of a name before its (re-)creation
 ExpectBag(k, evs) ==
-  [k EXCEPT !.seq = @ + Len(evs),
-            !.ws = [@ EXCEPT !.bag = @ \o [i \in 1..Len(evs) |-> Ent(evs[i][1], evs[i][2], 1, k.seq + i)]]]
+  LET first == SelectSeq(evs, LAMBDA e : e[2] # OpCreate)
+      last  == SelectSeq(evs, LAMBDA e : e[2] = OpCreate) IN
+  FoldLeft(LAMBDA kk, e : Expect(kk, e[1], e[2]), k, first \o last)
 
 \* user watches whose directory (really) is dir
 DirWatches(k, dir) == {u \in DOMAIN k.user : k.user[u].isdir /\ k.user[u].real = dir}
@@ -124,9 +127,12 @@ ApplyOp1(k, o) ==
 ApplyOp(k0, o) ==
   IF o.ret # "ok" \/ ~k0.on \/ k0.closed THEN k0
   ELSE
-  LET R == ApplyOp1([k0 EXCEPT !.bagmode = @ \/ Cardinality(DirWatches(k0, Parent(<<"/">> \o o.p)) \cup FileWatches(k0, <<"/">> \o o.p)
+  \* Operations made before the events of the previous ones were received are reported knote by knote (in order
+  \* of first activation, a directory's new entries together in name order), not in the order they were made:
+  \* only an operation made on a drained stream is ordered with respect to what follows.
+  LET R == ApplyOp1([k0 EXCEPT !.bagmode = @ \/ ~k0.fresh \/ Cardinality(DirWatches(k0, Parent(<<"/">> \o o.p)) \cup FileWatches(k0, <<"/">> \o o.p)
                                                             \cup DirWatches(k0, <<"/">> \o o.p)) > 1], o)
-  IN [R EXCEPT !.bagmode = k0.bagmode]
+  IN [R EXCEPT !.bagmode = k0.bagmode, !.fresh = FALSE]
 
 \* (several watches on one directory - the same directory added under two spellings - report the same
 \*  operation in descriptor order: such events are not ordered among themselves)
@@ -142,16 +148,14 @@ Infra(what) == [g EXCEPT !.infra = Append(@, what)]
 Reset == /\ IsKind("reset") /\ K' = K0 /\ g' = [G0 EXCEPT !.id = Line.id, !.start = l] /\ Next1
 
 End == /\ IsKind("end")
-       /\ LET mine == [viol |-> [b \in 1..Len(K.bad) |-> [id |-> Line.id, w |-> "w1", props |-> K.bad[b].props, cause |-> K.bad[b].cause]]
-                                \o [b \in 1..Len(K.ws.bad) |-> [id |-> Line.id, w |-> "w1", props |-> (K.ws.bad[b].props \cap {"C02"}) \cup {"C18"},
-                                                                  cause |-> K.ws.bad[b].cause \o (IF K.flags = {} THEN "" ELSE ":" \o FlagStr(K.flags))]],
-                       tags |-> K.tags \cup K.ws.nontriv, fog |-> FALSE, records |-> K.seq, events |-> g.events, infra |-> g.infra, lines |-> l - g.start + 1]
+       /\ LET mine == [viol |-> [b \in 1..Len(K.bad) |-> [id |-> Line.id, w |-> "w1", props |-> K.bad[b].props, cause |-> K.bad[b].cause]],
+                       tags |-> K.tags, fog |-> FALSE, records |-> K.seq, events |-> g.events, infra |-> g.infra, lines |-> l - g.start + 1]
               cur == TLCGet(3)
           IN TLCSet(3, IF Line.id \in DOMAIN cur /\ Len(cur[Line.id].viol) <= Len(mine.viol) THEN cur ELSE (Line.id :> mine) @@ cur)
        /\ K' = K0 /\ g' = G0 /\ Next1
 
 New == /\ IsKind("new")
-       /\ K' = IF Line.ret = "ok" THEN [K0 EXCEPT !.on = TRUE, !.ws = InitW(Line.cap)] ELSE K
+       /\ K' = IF Line.ret = "ok" THEN [K0 EXCEPT !.on = TRUE] ELSE K
        /\ g' = IF Line.ret = "ok" THEN g ELSE Infra("NewWatcher failed")
        /\ Next1
 
@@ -163,6 +167,8 @@ Fs == /\ IsKind("fs")
               ELSE ApplyOp(K, Line)
       /\ g' = g /\ Next1
 
+PendToOpt(k) == [nm \in (DOMAIN k.pend) \cup (DOMAIN k.opt) |->
+                    (IF nm \in DOMAIN k.opt THEN k.opt[nm] ELSE <<>>) \o (IF nm \in DOMAIN k.pend THEN k.pend[nm] ELSE <<>>)]
 \* Add / Remove / WatchList / Close
 CallK(k, c) ==
   IF c.ret = "blocked" THEN KBad(k, {"C17"}, "blocked:" \o c.op)
@@ -172,6 +178,9 @@ CallK(k, c) ==
          ELSE LET P == Clean(c.abs, c.arg) IN
               IF c.tkind = "missing" THEN (IF c.ret = "ok" THEN KBad(k, {"C17"}, "add_ok_on_missing") ELSE k)
               ELSE IF c.tkind = "fifo" THEN [k EXCEPT !.flags = @ \cup {"fifo_watch"}]
+              \* a directory with an entry that cannot be opened (dangling link): Add may fail; then nothing is watched
+              ELSE IF c.ret # "ok" /\ c.tkind = "dir" /\ (\E i \in 1..Len(c.entries) : c.entries[i].tkind = "missing")
+                   THEN KTag([k EXCEPT !.flags = @ \cup {"failed_dir_add"}, !.failed = @ \cup {P}], "failed_add")
               ELSE IF c.ret # "ok" THEN KBad(k, {"C17"}, "add_failed:" \o c.ret)
               ELSE LET real == IF c.lkind = "symlink" THEN (IF IsAbs(c.target) THEN c.target ELSE <<"/">> \o c.target) ELSE (IF c.abs THEN P ELSE <<"/">> \o (IF P = <<".">> THEN <<>> ELSE P))
                        isdir == c.tkind = "dir"
@@ -186,8 +195,13 @@ CallK(k, c) ==
          ELSE LET P == Clean(c.abs, c.arg) IN
               IF P \in DOMAIN k.user
               THEN LET k1 == [k EXCEPT !.user = Without(@, {P}), !.ent = Without(@, {P}),
-                                       !.ws = RelaxAll(@)] IN      \* what was pending for the removed watch may or may not arrive
+                                       !.opt = PendToOpt(k), !.pend = EmptyFn,      \* what was pending may or may not arrive any more
+                                       !.flags = @ \cup (IF \E u \in DOMAIN k.ent : u # P /\ Len(P) = Len(u) + 1 /\ SubSeq(P, 1, Len(u)) = u
+                                                         THEN {"nested_watch_removed"} ELSE {})] IN
                    IF c.ret = "ok" THEN KTag(k1, "remove") ELSE KBad(k1, {"C17"}, "remove_failed:" \o c.ret)
+              \* removing what a failed Add left behind: either answer, but afterwards nothing may be left
+              ELSE IF P \in k.failed /\ c.ret \in {"ok", "ErrNonExistentWatch"}
+                   THEN [k EXCEPT !.failed = @ \ {P}, !.flags = (@ \ {"failed_dir_add"}) \cup {"failed_dir_add_removed"}]
               ELSE IF c.ret = "ErrNonExistentWatch" THEN k ELSE KBad(k, {"C17"}, "remove_nonexistent:" \o c.ret)
     [] c.op = "watchlist" ->
          IF k.closed THEN (IF c.wlnil THEN k ELSE KBad(k, {"C17"}, "watchlist_after_close"))
@@ -196,7 +210,7 @@ CallK(k, c) ==
                   set == {CleanP(c.wl[i]) : i \in 1..Len(c.wl)} IN
               IF set = DOMAIN k.user /\ Len(c.wl) = Cardinality(set) THEN k
               ELSE KBad(k, {"C17"}, IF set \ DOMAIN k.user # {} THEN "watchlist_extra" ELSE "watchlist_missing")
-    [] c.op = "close" -> [(IF c.ret = "ok" THEN k ELSE KBad(k, {"C17"}, "close_returned:" \o c.ret)) EXCEPT !.closed = TRUE, !.ws = [RelaxAll(@) EXCEPT !.phase = "closed"]]
+    [] c.op = "close" -> [(IF c.ret = "ok" THEN k ELSE KBad(k, {"C17"}, "close_returned:" \o c.ret)) EXCEPT !.closed = TRUE, !.opt = PendToOpt(k), !.pend = EmptyFn]
     [] OTHER -> k
 
 Call == /\ IsKind("call")
@@ -204,37 +218,41 @@ Call == /\ IsKind("call")
         /\ g' = IF K.on THEN g ELSE Infra("call without watcher")
         /\ Next1
 
-\* kqueue accumulates the notes of a vnode until they are retrieved (EV_CLEAR): operations on one entry that
-\* were not retrieved in between surface as ONE event carrying the union of their operations (Write dropped
-\* when Remove is present).  m consecutive head entries of the same name may therefore be consumed by one event.
 KqUnion(a, b) == LET u == OrBits(a, b) IN IF HasBit(u, OpRemove) /\ HasBit(u, OpWrite) THEN u - OpWrite ELSE u
-RECURSIVE RunUnion(_, _, _)
-RunUnion(ws, a, m) == IF m = 1 THEN ws.exp[a].op ELSE KqUnion(RunUnion(ws, a, m - 1), ws.exp[a + m - 1].op)
-MergedLens(ws, v) ==
-  LET a == ws.eh + 1 IN
-  {m \in 2..6 : /\ a + m - 1 <= Len(ws.exp)
-                /\ \A i \in a..(a + m - 1) : ws.exp[i].name = v.name
-                /\ RunUnion(ws, a, m) = v.op}
-ConsumeRun(ws, m) == Note([ws EXCEPT !.eh = @ + m, !.mq = SelectSeq(@, LAMBDA q : q > ws.eh + m)], "merged_kevent")
+RECURSIVE PrefU(_, _)
+PrefU(sq, m) == IF m = 1 THEN (IF HasBit(sq[1], OpRemove) /\ HasBit(sq[1], OpWrite) THEN sq[1] - OpWrite ELSE sq[1]) ELSE KqUnion(PrefU(sq, m - 1), sq[m])
+Drop(f, name, m) == IF Len(f[name]) = m THEN Without(f, {name}) ELSE [f EXCEPT ![name] = SubSeq(@, m + 1, Len(@))]
+Lens(f, v) == IF v.name \in DOMAIN f THEN {m \in 1..Len(f[v.name]) : PrefU(f[v.name], m) = v.op} ELSE {}
 
-WithFrom(v) == [t |-> v.t, ch |-> v.ch, name |-> v.name, op |-> v.op, cls |-> v.cls, from |-> <<>>]
-RecvK(ws, v) == IF v.t = "err" THEN {Bad(ws, {"C18"}, "error:" \o v.cls)}
-                ELSE IF v.t = "ev" /\ MergedLens(ws, v) # {}
-                THEN {ConsumeRun(ws, m) : m \in MergedLens(ws, v)} \cup RecvVal(ws, v.ch, WithFrom(v))    \* merged or not: both are possible
-                ELSE RecvVal(ws, v.ch, WithFrom(v))
+\* the set of possible successors (which prefix an event stands for may be ambiguous)
+RecvK(k, v) ==
+  CASE v.t = "err" -> {KBad(k, {"C18"}, "error:" \o v.cls)}
+    [] v.t = "closed" -> {IF ~k.closed THEN KBad(k, {"C17"}, "channel_closed_without_close")
+                          ELSE IF v.ch = "ev" THEN [k EXCEPT !.evc = TRUE] ELSE [k EXCEPT !.errc = TRUE]}
+    [] v.t = "ev" ->
+         IF v.op = 0 THEN {KBad(k, {"C18"}, "empty_op")}
+         ELSE IF Lens(k.pend, v) # {} THEN {KTag([k EXCEPT !.pend = Drop(@, v.name, m)], IF m > 1 THEN "merged_kevent" ELSE "event") : m \in Lens(k.pend, v)}
+         ELSE IF Lens(k.opt, v) # {} THEN {[k EXCEPT !.opt = Drop(@, v.name, m)] : m \in Lens(k.opt, v)}
+         ELSE IF v.name \in DOMAIN k.pend
+              THEN {KBad([k EXCEPT !.pend = Drop(@, v.name, 1)], {"C18"}, "wrong_op:" \o OpName(k.pend[v.name][1]) \o "->" \o OpName(v.op))}
+         ELSE {KBad(k, {"C18"}, (IF HasBit(v.op, OpCreate) THEN "phantom_or_repeated:" ELSE "phantom:") \o OpName(v.op))}
+    [] OTHER -> {k}
 
 Recv == /\ IsKind("recv")
-        /\ \E nws \in RecvK(K.ws, Line.val) : K' = [K EXCEPT !.ws = nws]
+        /\ \E nk \in RecvK(K, Line.val) : K' = nk
         /\ g' = [g EXCEPT !.events = @ + 1] /\ Next1
 
-DrainEndK(w1, d) ==
-  CASE d.end = "idle" -> IF w1.phase = "closed" THEN w1 ELSE Settle(w1)
-    [] OTHER -> w1
+\* the stream is drained: every pending operation must have been reported
+SettleK(k) ==
+  IF k.closed THEN [k EXCEPT !.pend = EmptyFn, !.opt = EmptyFn]
+  ELSE LET k1 == IF DOMAIN k.pend # {}
+                 THEN LET nm == CHOOSE nm \in DOMAIN k.pend : TRUE IN KBad(k, {"C18"}, "lost:" \o OpName(k.pend[nm][1])) ELSE k
+       IN [k1 EXCEPT !.pend = EmptyFn, !.opt = EmptyFn, !.fresh = TRUE]
 
 Drain == /\ IsKind("drain")
-         /\ LET S == IF Line.vals = <<>> THEN {K.ws}
-                     ELSE FoldLeft(LAMBDA acc, v : UNION {RecvK(x, v) : x \in acc}, {K.ws}, Line.vals)
-            IN \E x \in S : K' = [K EXCEPT !.ws = DrainEndK(x, Line)]
+         /\ LET S == IF Line.vals = <<>> THEN {K}
+                     ELSE FoldLeft(LAMBDA acc, v : UNION {RecvK(x, v) : x \in acc}, {K}, Line.vals)
+            IN \E x \in S : K' = IF Line.end = "idle" THEN SettleK(x) ELSE x
          /\ g' = IF Line.end = "unquiet" THEN Infra("drain ended unquiet") ELSE [g EXCEPT !.events = @ + Len(Line.vals)]
          /\ Next1
 
